@@ -458,11 +458,14 @@ pub struct GraphTarget {
     i: u32,
     out: Out,
     p: Option<Box<dyn Pa>>,
+    /// set_phase was called since the latch was last taken or reset: whether it clears the latch is not
+    /// specified, so the latch is not compared until then
+    fog: bool,
 }
 
 impl GraphTarget {
     pub fn new(w: u32, i: u32) -> Self {
-        GraphTarget { w, i, out: Out::memory(), p: None }
+        GraphTarget { w, i, out: Out::memory(), p: None, fog: false }
     }
 }
 
@@ -472,6 +475,7 @@ impl crate::graphrun::Target for GraphTarget {
         self.out = Out::memory();
         self.out.line(&format!("{{\"op\":\"new\",\"w\":{},\"i\":{},\"fs\":{}}}", self.w, self.i, key(fs)));
         self.p = make(self.w, self.i, fs);
+        self.fog = false;
         if let Some(p) = self.p.as_mut() {
             p.set_frequency(0.0); // the increment before the first request is not specified
         }
@@ -553,14 +557,21 @@ impl crate::graphrun::Target for GraphTarget {
         if name == "take" {
             let was = op["was"].as_bool().unwrap();
             let said = self.out.mem.last().map(|l| l.contains("\"res\":true")).unwrap_or(false);
-            if was != said {
+            if (!self.fog && was != said) || (self.fog && was && !said) {
                 tags.push("C11:rollover-latch".to_string());
                 tags.push("C02:rollover-latch".to_string());
             }
         }
+        match name.as_str() {
+            "phase" => self.fog = true,
+            "take" | "reset" => self.fog = false,
+            _ => {}
+        }
         // the latch, peeked on a copy
         let mut c = p.copy();
-        if c.rolled_over() != proj[3].as_bool().unwrap() {
+        let latch = c.rolled_over();
+        let want = proj[3].as_bool().unwrap();
+        if (!self.fog && latch != want) || (self.fog && want && !latch) {
             tags.push("C11:rollover-latch".to_string());
             tags.push("C02:rollover-latch".to_string());
         }
